@@ -22,10 +22,11 @@ from sim.props.c03 import gen_compsim, run_compsim, shrink_compsim
 from sim.seams import Seams
 
 
-def _snap_set(x, g):
-    """nearest grid element(s) of x (both neighbours on an exact tie)"""
+def _snap_set(x, g, rel=1e-12):
+    """nearest grid element(s) of x (both neighbours when x is within rounding error - of the arithmetic of the history's
+    type - of the midpoint between them)"""
     d = np.abs(g - x)
-    return set(g[d <= d.min() + 1e-12 * max(1.0, abs(x))].tolist())
+    return set(g[d <= d.min() + max(1e-12 * max(1.0, abs(x)), rel * abs(x))].tolist())
 
 
 def check_best_batch(space, sampler, pts, losses, out, res: Result):
@@ -42,16 +43,18 @@ def check_best_batch(space, sampler, pts, losses, out, res: Result):
     prec = np.asarray(space.parameters_precision, float)
     grids = space.param_grid
     cache = {}
+    # a single-precision history is displaced in single precision: a displaced value may sit on either side of a midpoint
+    rel = 8 * float(np.finfo(pts.dtype).eps) if np.issubdtype(pts.dtype, np.floating) else 1e-12
 
     def cands(pi, j):
         key = (pi, j)
         if key not in cache:
             p = parents[pi, j]
-            unshocked = _snap_set(min(max(p, lo[j]), hi[j]), grids[j])
+            unshocked = _snap_set(min(max(p, lo[j]), hi[j]), grids[j], rel)
             shocked = set()
             for m in range(1, R):
                 for sgn in (-1, 1):
-                    shocked |= _snap_set(min(max(p + prec[j] * sgn * m, lo[j]), hi[j]), grids[j])
+                    shocked |= _snap_set(min(max(p + prec[j] * sgn * m, lo[j]), hi[j]), grids[j], rel)
             cache[key] = (unshocked, shocked)
         return cache[key]
     for r in range(len(out)):
